@@ -507,6 +507,89 @@ class Expander:
         return T().visit(source.clone(expr))
 
 
+def in_caller_terms(expr, helper, binding):
+    """`expr` of the helper rewritten over the CALLER's names: single-assignment locals of the helper are inlined, its parameters replaced by the argument expressions of the
+    call (`binding`: parameter -> expression in the caller's terms, None when that argument itself is not expressible). None when a local of the helper remains (a value computed
+    inside it by anything but single assignments), when a parameter it reads is re-bound inside the helper, or when an argument is missing."""
+    if expr is None:
+        return None
+    a_ = helper.args
+    params = {x.arg for x in a_.posonlyargs + a_.args + a_.kwonlyargs}
+    stored = {x.id for n in walk_body(helper) for x in ast.walk(n) if isinstance(x, ast.Name) and isinstance(x.ctx, (ast.Store, ast.Del))}
+    try:
+        e = source.inline_node(expr, {k: v for k, v in local_defs(helper).items() if k not in params})
+        free = loads_of(e)
+        if free & stored or any(p in free and binding.get(p) is None for p in params):
+            return None
+        return _subst(e, {p: binding[p] for p in params & free})
+    except (CannotEval, RecursionError):
+        return None
+
+
+class HelperStore:
+    """an assignment (`x[k] = v`, `x[k] op= v`, `x = v`) a region of code performs through a helper it calls: the statement, the helper it is a statement of, the helper's
+    parameters in the caller's terms, and the chain of calls it is reached through - [(call, binding of the function the call is a statement of)], the first one a call in the
+    analysed function itself (binding None: its own names)."""
+
+    def __init__(self, node, helper, binding, chain):
+        self.node, self.helper, self.binding, self.chain = node, helper, binding, list(chain)
+        self.call = self.chain[0][0]
+        self.target = node.targets[0] if isinstance(node, ast.Assign) else node.target
+
+    def caller_name(self, e):
+        """the local of the CALLER the helper's expression `e` is, when e is a parameter bound to a plain name at the call (the same object on both sides: an in-place update of
+        it inside the helper is an update of the caller's container); None otherwise."""
+        if isinstance(e, ast.Name) and isinstance(self.binding.get(e.id), ast.Name) and not any(
+                isinstance(x, ast.Name) and isinstance(x.ctx, (ast.Store, ast.Del)) and x.id == e.id for n in walk_body(self.helper) for x in ast.walk(n)):
+            return self.binding[e.id].id
+        return None
+
+    def value(self):
+        """the assigned value in the caller's terms (None: not expressible)."""
+        return in_caller_terms(self.node.value, self.helper, self.binding)
+
+    @staticmethod
+    def names_for(binding, name):
+        """the names under which the caller's local `name` is known in a scope: itself in the analysed function (binding None), the parameters bound to it in a helper."""
+        return [name] if binding is None else [p for p, a in binding.items() if isinstance(a, ast.Name) and a.id == name]
+
+    def params_bound_to(self, name):
+        return self.names_for(self.binding, name)
+
+    def scopes(self):
+        """[(statement, binding of the scope it belongs to)] from the call in the analysed function down to the store: the conditions around EACH of them control the store."""
+        return [(source.enclosing_stmt(c), b) for c, b in self.chain] + [(self.node, self.binding)]
+
+
+def helper_stores(nodes, resolve, exclude=(), _outer=None, _chain=(), _depth=0):
+    """The assignments the given nodes (e.g. those of a loop) perform through helpers: for every call among them that `resolve` maps to a function of the analysed code - method of the
+    same class, nested function, function of the module - the assignments of that function's own body, and (two levels deep) of the helpers it calls in turn, with the parameters
+    expressed over the names of the outermost caller. An extracted block of statements is thereby seen by a rule exactly like the inline statements it came from."""
+    out = []
+    for c in nodes:
+        if not isinstance(c, ast.Call) or any(isinstance(a, ast.Starred) for a in c.args) or any(k.arg is None for k in c.keywords):
+            continue
+        h = resolve(c)
+        if h is None or not isinstance(h, (ast.FunctionDef, ast.AsyncFunctionDef)) or any(h is x for x in exclude) or h.args.vararg or h.args.kwarg:
+            continue
+        names, defaults = _signature(h)
+        b = dict(source.bind_args(c, h))
+        if len(c.args) > len(names) or any(k.arg not in names for k in c.keywords):
+            continue
+        for p in names:
+            if p not in b and p in defaults and isinstance(defaults[p], ast.Constant):
+                b[p] = defaults[p]
+        if _outer is not None:
+            b = {p: in_caller_terms(e, _outer[0], _outer[1]) for p, e in b.items()}
+        chain = tuple(_chain) + ((c, _outer[1] if _outer is not None else None),)
+        for n in walk_body(h):
+            if isinstance(n, (ast.Assign, ast.AugAssign)):
+                out.append(HelperStore(n, h, b, chain))
+        if _depth < 1:
+            out += helper_stores([n for n in walk_body(h)], resolve, tuple(exclude) + (h,), (h, b), chain, _depth + 1)
+    return out
+
+
 # ---- concrete interpretation of extracted statements on representative values ------------------------------------------------------------------------------------
 
 class _Opaque:
@@ -905,7 +988,10 @@ def run(chk):
         "equality, hash and ordering), orderings of collections.Counter views over the details are evaluated too; "
         "every keyed read of a selective-parse result (the parse() call, a helper that returns it unchanged, a helper the result is handed to) must be among the paths that call requested; "
         "the pattern, locator literal and decoder offset of the cursor search are evaluated on seven spellings of the member (white space around the colon) and must point at the "
-        "value's opening bracket (F30); once a cursor is stored in the shared body, every path to ANY exit of the page function (exception edges included) removes it again (F28). "
+        "value's opening bracket (F30) - the search may slice the tail off or scan in place (<compiled pattern>.search(text, pos)), the decoder may get the whole text or the tail; "
+        "on a response in which no hit carries the member while a longer member name ends like it, no match may reach the decoder (a start position of -1 scans the whole text); "
+        "the per-page accounting (pages / weight, hit total from the first page only, sticky timed_out, summed took) is followed into helpers the page loop calls (stores into the "
+        "parameter bound to the result variable, conditions around every call on the way evaluated on the parameters bound to the result / the page number); once a cursor is stored in the shared body, every path to ANY exit of the page function (exception edges included) removes it again (F28). "
         "Known findings: fast-path gate does not summarise the _shards.failed disjunct (F10; also hides a 404 not_found delete item); the cursor key is located by a "
         "nesting-insensitive text search (F9b)."
     )
@@ -1483,23 +1569,72 @@ def run(chk):
     for n in walk_body(gl):
         if isinstance(n, ast.Assign) and isinstance(n.targets[0], ast.Name) and isinstance(n.value, ast.Call) and last_attr(n.value.func) in ("rfind", "find", "index", "rindex"):
             texts[n.targets[0].id] = u(source.inline_node(n.value.func.value, gdefs))  # single-assignment aliases of the text resolved
+    _SEARCHES = ("search", "match", "fullmatch")
+    _RE_SEARCH_SIG = ast.parse("def search(pattern, string, flags=0): pass").body[0]  # re.search / re.match / re.fullmatch
+    _PATTERN_SEARCH_SIG = ast.parse("def search(string, pos=0, endpos=None): pass").body[0]  # the methods of a compiled pattern
+
+    def whole_text(e_):
+        """the text an expression is a tail / part of: slices stripped (`t[i:]` is a part of t - positions in it are positions in t shifted by i, in the same unit)."""
+        e_ = source.inline_node(e_, gdefs)
+        while isinstance(e_, ast.Subscript) and isinstance(e_.slice, ast.Slice):
+            e_ = e_.value
+        return u(e_)
+
+    def searched_text(c):
+        """(pattern expression, text expression, [pos, endpos] expressions, method) of a pattern search: re.search(p, text) or <compiled pattern>.search(text[, pos[, endpos]])."""
+        if not isinstance(c, ast.Call) or not isinstance(c.func, ast.Attribute) or c.func.attr not in _SEARCHES or any(isinstance(a, ast.Starred) for a in c.args) \
+                or any(k.arg is None for k in c.keywords):
+            return None
+        if dotted(c.func) in ("re." + m_ for m_ in _SEARCHES):
+            a_ = source.bind_args(c, _RE_SEARCH_SIG)
+            return (a_["pattern"], a_["string"], [], c.func.attr) if set(a_) == {"pattern", "string"} and len(c.args) + len(c.keywords) == 2 else None
+        a_ = source.bind_args(c, _PATTERN_SEARCH_SIG)
+        if len(a_) != len(c.args) + len(c.keywords) or "string" not in a_ or ("endpos" in a_ and "pos" not in a_):
+            return None
+        return (c.func.value, a_["string"], [a_[k_] for k_ in ("pos", "endpos") if k_ in a_], c.func.attr)
+
+    def bound_name(c):
+        """the name a call's result is bound to: by a plain assignment or by an assignment expression (`if (m := pattern.search(text)) is None: return None`)"""
+        as_, np_ = source.enclosing_stmt(c), source.parent(c)
+        return as_.targets[0].id if isinstance(as_, ast.Assign) and as_.value is c and len(as_.targets) == 1 and isinstance(as_.targets[0], ast.Name) else (
+            np_.target.id if isinstance(np_, ast.NamedExpr) and np_.value is c and isinstance(np_.target, ast.Name) else None)
+
+    # positions read off a match object (m.start(k) / m.end(k) / m.span(k)) are positions in the text that was searched (shifted by the start of the slice, if a slice was searched)
+    mtexts = {}
+    for n in walk_body(gl):
+        st_ = searched_text(n)
+        if st_ is not None and bound_name(n) is not None:
+            mtexts[bound_name(n)] = whole_text(st_[1])
     n_off = 0
     for n in walk_body(gl):
         tgt = None
         used = set()
+        mused = set()
         if isinstance(n, ast.Subscript) and isinstance(n.slice, ast.Slice):
             tgt = u(source.inline_node(n.value, gdefs))
             used = {x.id for x in ast.walk(n.slice) if isinstance(x, ast.Name)}
         elif isinstance(n, ast.Call) and last_attr(n.func) == "raw_decode" and len(n.args) == 2:
             tgt = u(source.inline_node(n.args[0], gdefs))
             used = {x.id for x in ast.walk(n.args[1]) if isinstance(x, ast.Name)}
-        elif isinstance(n, ast.Call) and last_attr(n.func) in ("search", "match") and len(n.args) >= 3:
+        elif isinstance(n, ast.Call) and last_attr(n.func) in ("search", "match") and len(n.args) >= 3 and dotted(n.func) in ("re.search", "re.match"):
             tgt = u(source.inline_node(n.args[1], gdefs))
             used = {x.id for x in ast.walk(n.args[2]) if isinstance(x, ast.Name)}
+        elif searched_text(n) is not None and searched_text(n)[2]:
+            # <compiled pattern>.search(text, pos[, endpos]): the start position is an offset into the text handed over
+            tgt = u(source.inline_node(searched_text(n)[1], gdefs))
+            used = {x.id for a_ in searched_text(n)[2] for x in ast.walk(a_) if isinstance(x, ast.Name)}
+        if tgt is not None:
+            mused = {x.func.value.id for a_ in ([n.slice] if isinstance(n, ast.Subscript) else list(n.args)) for x in ast.walk(a_)
+                     if isinstance(x, ast.Call) and isinstance(x.func, ast.Attribute) and x.func.attr in ("start", "end", "span") and isinstance(x.func.value, ast.Name) and x.func.value.id in mtexts}
         for v in used & set(texts):
             n_off += 1
             ok = texts[v] == tgt
             chk.ob("O19.2", f"offset `{v}` (found in `{texts[v]}`) applied to `{tgt}`", ok, n, "" if ok else "an offset found in one text (e.g. the raw bytes) indexes another (the decoded string): they differ by the number of multi-byte characters before it")
+        for v in sorted(mused):
+            n_off += 1
+            ok = mtexts[v] == whole_text(n.value if isinstance(n, ast.Subscript) else (n.args[0] if last_attr(n.func) == "raw_decode" else searched_text(n)[1]))
+            chk.ob("O19.2", f"position read off the match `{v}` (a search in `{mtexts[v]}`) applied to `{tgt}`", ok, n,
+                   "" if ok else "a position found in one text (e.g. the raw bytes) indexes another (the decoded string): they differ by the number of multi-byte characters before it")
     if n_off >= 1:
         chk.ob("O19.2", "offset uses located", True, gl, f"{n_off} use(s)")
     else:
@@ -1542,32 +1677,27 @@ def run(chk):
             return call_.args[0].value
         return None
 
-    probes = []  # (search call, method, pattern text, text expression, name bound to the match)
+    probes = []  # (search call, method, pattern text, text expression, name bound to the match, [pos, endpos] expressions of a compiled pattern's search)
     for n in walk_body(gl):
-        if not isinstance(n, ast.Call):
+        st_ = searched_text(n)
+        if st_ is None:
             continue
-        if dotted(n.func) in ("re.search", "re.match", "re.fullmatch") and len(n.args) == 2 and not n.keywords:
-            pexpr, texpr, meth = n.args[0], n.args[1], n.func.attr
-        elif isinstance(n.func, ast.Attribute) and n.func.attr in ("search", "match", "fullmatch") and len(n.args) == 1 and not n.keywords and dotted(n.func.value) != "re":
-            pexpr, texpr, meth = n.func.value, n.args[0], n.func.attr
-        else:
-            continue
+        pexpr, texpr, posargs, meth = st_
         ptxt = compiled_literal(pexpr)
         if ptxt is None:
             continue
-        # the name the match object is bound to: by a plain assignment or by an assignment expression (`if (m := pattern.search(text)) is None: return None`)
-        as_, np_ = source.enclosing_stmt(n), source.parent(n)
-        mv = as_.targets[0].id if isinstance(as_, ast.Assign) and as_.value is n and len(as_.targets) == 1 and isinstance(as_.targets[0], ast.Name) else (
-            np_.target.id if isinstance(np_, ast.NamedExpr) and np_.value is n and isinstance(np_.target, ast.Name) else None)
-        probes.append((n, meth, ptxt, texpr, mv))
+        probes.append((n, meth, ptxt, texpr, bound_name(n), posargs))
     if len(probes) != 1:
         raise AnchorMissing(f"_get_last_sort: the one pattern search that locates the cursor value ({len(probes)} found)")
-    sc, meth, ptxt, texpr, mv = probes[0]
+    sc, meth, ptxt, texpr, mv, posargs = probes[0]
     try:
         cpat = _re.compile(ptxt)
     except _re.error as e:
         raise AnchorMissing(f"_get_last_sort: pattern {ptxt!r} does not compile: {e}")
     raw = [d for d in decs if last_attr(d.func) == "raw_decode" and len(d.args) == 2]
+
+    class KeyNotFound(CannotEval):
+        """str.index / str.rindex of the locator literal on a probe text that does not contain it: the analysed code raises ValueError there"""
 
     class OnText(ast.NodeTransformer):
         """replaces `<text>.rfind(<literal>)` (find / index / rindex) by its value on the probe text and `<match>.start(k)` / `.end(k)` by the value for the probe match."""
@@ -1575,15 +1705,24 @@ def run(chk):
         def __init__(self, full, m):
             self.full, self.m = full, m
 
+        def visit_NamedExpr(self, n):
+            # `(m := <the pattern search>)` inside a test: the match is supplied by the rule under that name
+            if mv is not None and isinstance(n.target, ast.Name) and n.target.id == mv:
+                return ast.Name(id=mv, ctx=ast.Load())
+            return self.generic_visit(n)
+
         def visit_Call(self, c):
             self.generic_visit(c)
+            if isinstance(c.func, ast.Name) and c.func.id in ("max", "min") and len(c.args) >= 2 and not c.keywords and all(
+                    isinstance(a, ast.Constant) and type(a.value) is int for a in c.args):
+                return ast.Constant(value=(max if c.func.id == "max" else min)(a.value for a in c.args))  # a clamped position: max(<offset>, 0)
             if isinstance(c.func, ast.Attribute) and not c.keywords:
                 if c.func.attr in ("rfind", "find", "index", "rindex") and len(c.args) == 1 and isinstance(c.args[0], ast.Constant) and isinstance(c.args[0].value, str):
                     try:
                         return ast.Constant(value=getattr(self.full, c.func.attr)(c.args[0].value))
                     except ValueError:
-                        raise CannotEval(f"{u(c)}: not found in the probe text")
-                if c.func.attr in ("start", "end") and isinstance(c.func.value, ast.Name) and c.func.value.id == mv and len(c.args) <= 1 and all(isinstance(a, ast.Constant) for a in c.args):
+                        raise KeyNotFound(f"{u(c)}: not found in the probe text")
+                if c.func.attr in ("start", "end", "span") and isinstance(c.func.value, ast.Name) and c.func.value.id == mv and len(c.args) <= 1 and all(isinstance(a, ast.Constant) for a in c.args):
                     if self.m is None:
                         raise CannotEval("no match")
                     try:
@@ -1592,8 +1731,31 @@ def run(chk):
                         raise CannotEval(f"{u(c)}: {x}")
             return c
 
-    def on_text(expr, full, m):
-        return ev(OnText(full, m).visit(source.inline_node(expr, {k_: v_ for k_, v_ in gdefs.items() if k_ != mv})), {})
+    def on_text(expr, full, m, env=None):
+        return ev(OnText(full, m).visit(source.inline_node(expr, {k_: v_ for k_, v_ in gdefs.items() if k_ != mv})), dict(env or {}))
+
+    def tail_start(e_, full, negative_ok=False):
+        """(where the text `e_` starts within the probe text, the text itself): the decoded response (0) or its tail `text[i:]` from an offset found by a literal text search -
+        written in place or bound to a local first. With negative_ok the slice is taken as Python takes it (text[-1:] is the last character)."""
+        ei = source.inline_node(e_, {k_: v_ for k_, v_ in gdefs.items() if k_ != mv})
+        if not isinstance(ei, ast.Subscript):
+            return 0, full
+        if not (isinstance(ei.slice, ast.Slice) and ei.slice.upper is None and ei.slice.step is None) or isinstance(ei.value, ast.Subscript):
+            raise CannotEval(f"text searched / decoded: {u(e_)}")
+        lo = on_text(ei.slice.lower, full, None) if ei.slice.lower is not None else 0
+        if not isinstance(lo, int) or isinstance(lo, bool) or (lo < 0 and not negative_ok):
+            raise CannotEval(f"start of the text searched / decoded: {lo!r}")
+        part = full[lo:]
+        return len(full) - len(part), part
+
+    def run_search(full, negative_ok=False):
+        """(start of the searched text within the probe, the match of the pattern literal on it) - a compiled pattern's search(text, pos[, endpos]) scans from pos as `re` does
+        (a negative pos is 0: the whole text)."""
+        start, part = tail_start(texpr, full, negative_ok)
+        pv = [on_text(a_, full, None) for a_ in posargs]
+        if not all(isinstance(x_, int) and not isinstance(x_, bool) for x_ in pv) or (any(x_ < 0 for x_ in pv) and not negative_ok):
+            raise CannotEval(f"start position of the search: {pv!r}")
+        return start, getattr(cpat, meth)(part, *pv)
 
     for ws1, ws2 in (("", ""), ("", " "), (" ", " "), (" ", ""), ("\n      ", "\n      "), ("\t", "\t"), ("\r\n", "\r\n")):
         member = '"sort"' + ws1 + ":" + ws2 + "[2]"
@@ -1603,21 +1765,14 @@ def run(chk):
         inst = f"cursor value located when the member is spelled {member!r}"
         key_ = f"{_R}:SearchAfterExtractor._get_last_sort:value-start:{ws1!r}:{ws2!r}"
         try:
-            # the text searched: the decoded response, or its tail from an offset found by a literal text search
-            if isinstance(texpr, ast.Subscript) and isinstance(texpr.slice, ast.Slice) and texpr.slice.upper is None and texpr.slice.step is None:
-                start = on_text(texpr.slice.lower, full, None) if texpr.slice.lower is not None else 0
-            elif isinstance(source.inline_node(texpr, gdefs), ast.Subscript):
-                raise CannotEval(f"text searched: {u(texpr)}")
-            else:
-                start = 0
-            if not isinstance(start, int) or isinstance(start, bool) or start < 0:
-                raise CannotEval(f"start of the text searched: {start!r}")
-            m = getattr(cpat, meth)(full[start:])
+            # the text searched: the decoded response, or its tail from an offset found by a literal text search (sliced off, or scanned in place from that position on)
+            start, m = run_search(full)
             if m is None:
                 chk.ob("O19.2", inst, False, sc, f"pattern {ptxt!r} does not match: the fast path returns no cursor, a full parse of the same response gives [2]", key=key_)
                 continue
             if raw:
-                got = on_text(raw[0].args[1], full, m)
+                # the decoder is handed the decoded response or a tail of it: its offset counts from where that text starts
+                got = tail_start(raw[0].args[0], full)[0] + on_text(raw[0].args[1], full, m)
                 how_ = f"decoder offset `{u(raw[0].args[1])}`"
             else:
                 # no offset-based decoder: the positions read off the match, relative to the text searched
@@ -1631,6 +1786,39 @@ def run(chk):
         except CannotEval as e:
             chk.unknown("O19.2", f"_get_last_sort: the position handed to the decoder cannot be evaluated on a probe text: {e}", sc)
             break
+    # a response in which NO hit carries the member (the text search for the key finds nothing: -1), while the pattern - which starts inside the key - does occur in a longer member
+    # name: a full parse has no cursor. The fast path has none either iff the search is not reached, scans a text in which the pattern does not occur (text[-1:] is one character),
+    # or its match never reaches the decoder. A start position of -1 handed to <compiled pattern>.search(text, pos) scans the WHOLE text.
+    none_ = '{"took":1,"timed_out":false,"hits":{"total":{"value":1,"relation":"eq"},"hits":[{"_id":"1","_source":{"resort":[1]}}]}}'
+    assert "sort" not in _json.loads(none_)["hits"]["hits"][-1] and '"sort"' not in none_
+    key_ = f"{_R}:SearchAfterExtractor._get_last_sort:no-sort-member"
+    inst = "no cursor when no hit carries the member (the key search finds nothing) although a longer member name ends like it"
+    try:
+        def passed(node_, m_):
+            return all(bool(on_text(t_, none_, m_, {mv: m_} if mv else None)) == pol_ for t_, pol_ in guards(source.enclosing_stmt(node_), path_sensitive=True))
+
+        try:
+            reached_ = passed(sc, None)
+            if reached_:
+                tail_start(texpr, none_, negative_ok=True), [on_text(a_, none_, None) for a_ in posargs]
+        except KeyNotFound:
+            reached_ = False  # the key search raises (index / rindex): the pattern search does not run
+        if not reached_:
+            chk.ob("O19.2", inst, True, sc, "the pattern search is not reached when the key search finds nothing", key=key_)
+        else:
+            _, m = run_search(none_, negative_ok=True)
+            dsite = raw[0] if raw else decs[0]
+            if m is None:
+                chk.ob("O19.2", inst, True, sc, "the text scanned after an unsuccessful key search does not contain the pattern", key=key_)
+            elif mv is None and isinstance(source.enclosing_stmt(dsite), ast.If):
+                raise CannotEval("the match is not bound to a name")
+            else:
+                reached = passed(dsite, m)
+                chk.ob("O19.2", inst, not reached, dsite,
+                       f"the key search finds nothing, the pattern search then scans the text from {m.string[:12]!r} on and matches {m.group(0)!r} inside another member: the fast path "
+                       f"decodes a cursor where a full parse of the same response has none" if reached else "a match found after an unsuccessful key search never reaches the decoder", key=key_)
+    except CannotEval as e:
+        chk.unknown("O19.2", f"_get_last_sort: what happens when the key search finds nothing cannot be evaluated on a probe text: {e}", sc)
 
     # ---- O19.5 known finding F9b ----------------------------------------------------------------------------------------------------------------------------
     chk.rule("O19.5", "the cursor key of the last hit is located structurally, not by a nesting-insensitive text search", 1,
@@ -1648,6 +1836,7 @@ def run(chk):
     if qcall is None:
         raise AnchorMissing("Query.__call__")
     inner = {n.name: n for n in ast.walk(qcall) if isinstance(n, (ast.AsyncFunctionDef, ast.FunctionDef))}
+    resolve6 = Expander(rn, Q, nested=list(inner.values())).target  # helpers of the page functions: methods of Query, functions nested in __call__, functions of the module
 
     def extractor_class(attr):
         """class whose instance Query stores under self.<attr>."""
@@ -1804,6 +1993,25 @@ def run(chk):
 
         if not rq or not ex_:
             chk.unknown("O19.6", f"{fname}: the page request (await self._raw_search(..)) or the call of self.{extractor}(..) could not be located in the page loop", PL_)
+        elif not ok:
+            # several requests / extractor calls in the loop: two requests on ONE path through an iteration are two requests for one counted page (located and wrong); alternatives
+            # on different branches (e.g. with / without a point in time) are a shape this rule does not follow
+            twice = [(a_, b_) for a_, b_ in itertools.permutations(rq, 2) if a_ is not b_ and gq.node_of(a_) is not gq.node_of(b_)
+                     and gq.path_exists(gq.node_of(a_), gq.node_of(b_), avoid=[gq.node_of(PL_)], edge_ok=gq.normal_edge)]
+            if twice:
+                chk.ob("O19.6", f"{fname}: one request per page, its own response handed to the extractor", False, twice[0][1],
+                       f"a second page request (line {twice[0][1].lineno}) follows the one at line {twice[0][0].lineno} within the same iteration: two requests, one page counted")
+            else:
+                # alternatives: every one binds the same plain local, that local is the extractor's response argument, the extractor call comes after one of them on every path
+                stmts_ = [source.enclosing_stmt(r_) for r_ in rq]
+                names_ = {s_.targets[0].id if isinstance(s_, ast.Assign) and s_.value is r_ and len(s_.targets) == 1 and isinstance(s_.targets[0], ast.Name) else None for s_, r_ in zip(stmts_, rq)}
+                if len(ex_) == 1 and len(names_) == 1 and None not in names_ and isinstance(rarg, ast.Name) and rarg.id in names_ and len(loop_stores(rarg.id)) == len(rq) \
+                        and gq.dominated_by_nodes(gq.node_of(ex_[0]), [gq.node_of(r_) for r_ in rq]) \
+                        and not any(gq.path_exists(gq.node_of(ex_[0]), gq.node_of(r_), avoid=[gq.node_of(PL_)]) for r_ in rq):
+                    chk.ob("O19.6", f"{fname}: one request per page, its own response handed to the extractor", True, ex_[0], f"{len(rq)} alternative requests, each bound to `{rarg.id}`")
+                else:
+                    chk.unknown("O19.6", f"{fname}: {len(rq)} page requests / {len(ex_)} calls of self.{extractor}(..) in the page loop, on alternative branches: which response reaches "
+                                         f"the extractor is not followed", PL_)
         elif ok and rarg is not None and (rarg is rq[0] or rarg is rq[0].value):
             # the awaited request itself is the argument: its own response by construction
             chk.ob("O19.6", f"{fname}: one request per page, its own response handed to the extractor", True, ex_[0], "the page request is the extractor's argument")
@@ -1839,19 +2047,40 @@ def run(chk):
                     return _pat.match(e_, f"V_p[{how[1]!r}]", binds={"p": et.id}) is not None and len(loop_stores(et.id)) == 1, [es_]
                 return None, []
 
-            v_ = st[0].value
-            direct, need = from_extractor(v_)
-            if direct:
-                ok = True
-            elif isinstance(v_, ast.Name):
-                # one local in between: bound once per page, from the extractor's result of this iteration
-                binds = loop_stores(v_.id)
-                ok = len(binds) == 1 and isinstance(binds[0], ast.Assign) and len(binds[0].targets) == 1 and isinstance(binds[0].targets[0], ast.Name)
-                if ok:
-                    ok, need = from_extractor(binds[0].value)
-                    need = need + [binds[0]]
-            else:
-                ok = False
+            def same_value(e_):
+                """looks through wrappers that hand on the same JSON value: list(x) / tuple(x) / dict(x) / copy.copy(x) / copy.deepcopy(x) / x.copy() / x[:]"""
+                while True:
+                    if isinstance(e_, ast.Call) and not e_.keywords and len(e_.args) == 1 and dotted(e_.func) in ("list", "tuple", "dict", "copy.copy", "copy.deepcopy", "deepcopy"):
+                        e_ = e_.args[0]
+                    elif isinstance(e_, ast.Call) and not e_.keywords and not e_.args and isinstance(e_.func, ast.Attribute) and e_.func.attr == "copy":
+                        e_ = e_.func.value
+                    elif isinstance(e_, ast.Subscript) and isinstance(e_.slice, ast.Slice) and e_.slice.lower is None and e_.slice.upper is None and e_.slice.step is None:
+                        e_ = e_.value
+                    else:
+                        return e_
+
+            own6 = ({et.id} if isinstance(et, ast.Name) else set()) | (
+                {et.elts[how[1]].id} if how[0] == "tuple" and isinstance(et, ast.Tuple) and how[1] < len(et.elts) and isinstance(et.elts[how[1]], ast.Name) else set())
+
+            def is_cursor(e_, depth=0):
+                """(True: e_ is this page's cursor as the extractor produced it / False: it was located and is something else / None: not recognised, statements that must have run)"""
+                e_ = same_value(e_)
+                if how[0] == "key" and isinstance(et, ast.Name) and _pat.is_(e_, f"V_p.get({how[1]!r})", f"V_p.get({how[1]!r}, None)", binds={"p": et.id}):
+                    e_ = ast.Subscript(value=ast.Name(id=et.id, ctx=ast.Load()), slice=ast.Constant(value=how[1]), ctx=ast.Load())  # a read that is None when the member is absent
+                direct, need_ = from_extractor(e_)
+                if direct or direct is None:
+                    return direct, need_
+                if isinstance(e_, ast.Name) and depth < 3:
+                    # a local in between: bound once per page, from the extractor's result of this iteration
+                    binds = loop_stores(e_.id)
+                    if len(binds) == 1 and isinstance(binds[0], ast.Assign) and len(binds[0].targets) == 1 and isinstance(binds[0].targets[0], ast.Name):
+                        r_, need_ = is_cursor(binds[0].value, depth + 1)
+                        return r_, need_ + [binds[0]]
+                    return (False if not binds or e_.id in own6 else None), []  # never bound in the loop: not this page's cursor; bound several times: not followed
+                # an expression: computed from anything besides this page's extractor result -> something else; a function of that result alone -> not recognised
+                return (False if (loads_of(e_) - own6 - {"self"}) or not loads_of(e_) else None), []
+
+            ok, need = is_cursor(st[0].value)
             if ok is None:
                 chk.unknown("O19.6", f"{fname}: how the result of self.{extractor}(..) is taken apart is not recognised (`{short(es_, 60)}`)", es_)
             else:
@@ -1948,7 +2177,23 @@ def run(chk):
                    key=f"{_R}:Query.{fname}:cursor-does-not-survive")
         pg = {n.targets[0].slice.value: n.value for n in ast.walk(PL_) if isinstance(n, ast.Assign) and isinstance(n.targets[0], ast.Subscript) and isinstance(n.targets[0].value, ast.Name)
               and n.targets[0].value.id == RES and isinstance(n.targets[0].slice, ast.Constant)}
+        # <result>.update(pages=.., weight=..) / <result>.update({"pages": .., ..}) as a statement of the loop stores those members too
+        for n in ast.walk(PL_):
+            if isinstance(n, ast.Expr) and isinstance(n.value, ast.Call) and isinstance(n.value.func, ast.Attribute) and n.value.func.attr == "update" and isinstance(n.value.func.value, ast.Name) \
+                    and n.value.func.value.id == RES and len(n.value.args) <= 1 and all(isinstance(a_, ast.Dict) and None not in a_.keys for a_ in n.value.args) and all(k_.arg for k_ in n.value.keywords):
+                for k_, v_ in [(k_.value, v_) for a_ in n.value.args for k_, v_ in zip(a_.keys, a_.values) if isinstance(k_, ast.Constant)] + [(k_.arg, k_.value) for k_ in n.value.keywords]:
+                    pg.setdefault(k_, v_)
         iv = PL_.target.id
+        defs6 = {k_: v_ for k_, v_ in local_defs(f).items() if k_ != iv and k_ != RES}
+        # the page accounting may sit in a helper the loop calls once per page (an extracted block): its stores into the parameter bound to the result variable count like the
+        # loop's own, their values rewritten over the loop's names (parameters replaced by the arguments of the call)
+        via6 = [h_ for h_ in helper_stores([n for n in ast.walk(PL_) if source.enclosing_func(n) is f], resolve6, exclude=(f,))
+                if isinstance(h_.target, ast.Subscript) and h_.caller_name(h_.target.value) == RES and isinstance(h_.target.slice, ast.Constant)]
+        _NOT_EXPRESSIBLE = "<a value computed inside the helper>"
+        for h_ in via6:
+            if isinstance(h_.node, ast.Assign) and h_.target.slice.value not in pg:
+                v6 = h_.value()
+                pg[h_.target.slice.value] = v6 if v6 is not None else ast.Name(id=_NOT_EXPRESSIBLE, ctx=ast.Load())
         if "pages" not in pg or "weight" not in pg:
             chk.unknown("O19.6", f"{fname}: where the page loop records `pages` / `weight` in the result could not be located", PL_)
         else:
@@ -1958,27 +2203,72 @@ def run(chk):
                 first_ = ev(ra_[0], {}) if len(ra_) >= 2 else 0
                 if not 1 <= len(ra_) <= 3 or type(first_) is not int or PL_.iter.keywords or (len(ra_) == 3 and ev(ra_[2], {}) != 1):
                     raise CannotEval(f"range of the page loop: {u(PL_.iter)}")
-                ok = all(same_json(xev(pg[k_], {iv: first_ + i_}), i_ + 1) for k_ in ("pages", "weight") for i_ in (0, 1)) and len(loop_stores(iv)) == 1
+                def nth6(e_, i_):
+                    try:
+                        return xev(e_, {iv: first_ + i_})
+                    except CannotEval:
+                        # through locals bound once (`done = page`); a local bound from a call stays what it is: not evaluable
+                        return xev(source.inline_node(e_, defs6, no_calls=True), {iv: first_ + i_})
+
+                ok = all(same_json(nth6(pg[k_], i_), i_ + 1) for k_ in ("pages", "weight") for i_ in (0, 1)) and len(loop_stores(iv)) == 1
                 chk.ob("O19.6", f"{fname}: pages == weight == requests issued", ok, PL_, f"{ {k: u(v) for k, v in pg.items() if k in ('pages', 'weight')} }")
             except CannotEval as e:
-                if len(PL_.iter.args) == 2 and source.is_const(PL_.iter.args[0], 1) and all(isinstance(pg[k_], ast.Name) for k_ in ("pages", "weight")):
+                # not evaluable: a plain local. The loop variable counts the requests; a local the loop never re-binds is the same on every page (wrong from the second request
+                # on); a local the loop re-binds (a counter of its own) is not decided here
+                if len(PL_.iter.args) == 2 and source.is_const(PL_.iter.args[0], 1) and all(isinstance(pg[k_], ast.Name) and pg[k_].id != _NOT_EXPRESSIBLE
+                                                                                                  and (pg[k_].id == iv or not loop_stores(pg[k_].id)) for k_ in ("pages", "weight")):
                     ok = all(pg[k_].id == iv for k_ in ("pages", "weight")) and len(loop_stores(iv)) == 1
                     chk.ob("O19.6", f"{fname}: pages == weight == requests issued", ok, PL_, f"{ {k: u(v) for k, v in pg.items() if k in ('pages', 'weight')} }")
                 else:
                     chk.unknown("O19.6", f"{fname}: the values recorded as `pages` / `weight` cannot be evaluated per iteration: {e}", PL_)
         hs = [n for n in ast.walk(PL_) if isinstance(n, ast.Assign) and isinstance(n.targets[0], ast.Subscript) and source.is_const(n.targets[0].slice, "hits")]
-        ok = len(hs) == 1
+        hv = [h_ for h_ in via6 if isinstance(h_.node, ast.Assign) and h_.target.slice.value == "hits"]
+        ok = len(hs) + len(hv) == 1
         if not ok:
-            chk.unknown("O19.6", f"{fname}: the one statement of the page loop that records the hit total (<result>['hits'] = ..) could not be located ({len(hs)} found)", PL_)
+            chk.unknown("O19.6", f"{fname}: the one statement of the page loop that records the hit total (<result>['hits'] = ..) could not be located ({len(hs) + len(hv)} found)", PL_)
             continue
-        if ok:
-            try:
-                # decided on values: the store is reached while no hit total is recorded yet, and not once one is
-                reach = [all(bool(xev(t, {RES: dict(r_)})) == pol for t, pol in guards(hs[0], stop=PL_)) for r_ in ({"unit": "pages", "took": 0}, {"unit": "pages", "took": 0, "hits": 10000}, {"unit": "pages", "took": 0, "hits": 0})]
-                ok = reach == [True, False, False] and bool(guards(hs[0], stop=PL_))
-            except CannotEval:
-                ok = _pat.guarded(hs[0], f"{RES}.get('hits') is None", stop=PL_) is not None
-        chk.ob("O19.6", f"{fname}: hit total taken from the first page only", ok, hs[0] if hs else PL_, "")
+        # decided on values: the store is reached while no hit total is recorded yet (first page), and not once one is (second page) - the conditions around the store are evaluated on
+        # three states of the result, the loop variable being the number of that page. When the store sits in a helper, the conditions around the call (on the loop's names) and those
+        # around the store inside the helper (on its parameters: the one bound to the result variable IS the result dict, the one bound to the loop variable the page number) count.
+        try:
+            first6 = (ev(PL_.iter.args[0], {}) if len(PL_.iter.args) >= 2 else 0) if 1 <= len(PL_.iter.args) <= 3 and not PL_.iter.keywords else None
+        except CannotEval:
+            first6 = None
+        h_ = hv[0] if hv else None
+        site6 = hs[0] if hs else h_.node
+        # (condition, polarity, binding of the scope it is written in): the explicit branches around the loop's own statement; for a store inside a helper the conditions around
+        # every call on the way and around the store, guard clauses of the helpers included
+        conds6 = [(t, pol, None) for t, pol in guards(hs[0], stop=PL_)] if hs else [
+            (t, pol, b_) for st_, b_ in h_.scopes() for t, pol in (guards(st_, stop=PL_) if b_ is None else guards(st_, path_sensitive=True))]
+        reach = []
+        for r_, nth in (({"unit": "pages", "took": 0}, 0), ({"unit": "pages", "took": 0, "hits": 10000}, 1), ({"unit": "pages", "took": 0, "hits": 0}, 1)):
+            res_ = dict(r_)
+            verdict = True  # False: some condition that can be evaluated keeps the store from running; None: that depends on a condition that cannot be evaluated
+            for t, pol, b_ in conds6:
+                env6 = {n_: res_ for n_ in HelperStore.names_for(b_, RES)}
+                if type(first6) is int:
+                    env6.update({n_: first6 + nth for n_ in HelperStore.names_for(b_, iv)})
+                try:
+                    if bool(xev(t, env6)) != pol:
+                        verdict = False
+                        break
+                except CannotEval:
+                    verdict = None
+            reach.append(verdict)
+        if reach[0] is not False and reach[1:] == [False, False]:
+            ok = True  # whatever else decides about the first page: once a total is recorded the store does not run
+        elif None not in reach or reach[0] is False:
+            ok = False  # decided on conditions that can all be evaluated: never recorded / recorded again once a total is there (an unconditional store: [True, True, True])
+        else:
+            # a condition over something else: recognised only when one of the conditions is the plain test on the result
+            ok = any(_pat.guarded(st_, *[f"{n_}.get('hits') is None" for n_ in HelperStore.names_for(b_, RES)], stop=PL_ if b_ is None else None) is not None
+                     for st_, b_ in ([(hs[0], None)] if hs else h_.scopes()) if HelperStore.names_for(b_, RES)) or None
+        if ok is None:
+            chk.unknown("O19.6", f"{fname}: the conditions under which the hit total is recorded ({', '.join(short(t, 40) for t, _, _ in conds6)}) cannot be evaluated on a result "
+                                 f"with / without a recorded total", site6)
+        else:
+            chk.ob("O19.6", f"{fname}: hit total taken from the first page only", ok, site6,
+                   "" if h_ is None else f"recorded by the helper {h_.helper.name} the page loop calls: {short(h_.call, 60)}")
 
     # ---- O19.7 flags accumulated over pages are sticky -------------------------------------------------------------------------------------------------
     chk.rule("O19.7", "multi-page searches (scroll, search_after, composite): `timed_out` is true if ANY page reported it (a later page can only turn it on), `took` is summed", 5,
@@ -1986,6 +2276,7 @@ def run(chk):
     from sa import pat as _p7
     Q = rn.cls("Query")
     n7 = 0
+    resolve7 = Expander(rn, Q, nested=[n for n in ast.walk(Q) if isinstance(n, (ast.FunctionDef, ast.AsyncFunctionDef)) and source.enclosing_func(n) is not None]).target
     for fn in [n for n in ast.walk(Q) if isinstance(n, (ast.FunctionDef, ast.AsyncFunctionDef))]:
         loops7 = [n for n in walk_body(fn) if isinstance(n, (ast.For, ast.While, ast.AsyncFor))]
         if not loops7:
@@ -1997,17 +2288,43 @@ def run(chk):
                     names[v_.id] = k_.value
         for lp in loops7:
             lv = lp.target.id if isinstance(lp, ast.For) and isinstance(lp.target, ast.Name) else None
-            for st_ in ast.walk(lp):
-                if not isinstance(st_, (ast.Assign, ast.AugAssign)) or source.enclosing_func(st_) is not fn or source.enclosing(st_, (ast.For, ast.While, ast.AsyncFor)) is not lp:
-                    continue
+            own7 = [(st_, None) for st_ in ast.walk(lp) if isinstance(st_, (ast.Assign, ast.AugAssign)) and source.enclosing_func(st_) is fn
+                    and source.enclosing(st_, (ast.For, ast.While, ast.AsyncFor)) is lp]
+            # the accumulation may sit in a helper the loop calls per page (an extracted block): a keyed store into a parameter that IS a container of the looping function which the
+            # loop never re-binds (the accumulated result) is an in-loop store like the loop's own; flag / guard / sum are then read in the helper's own terms
+            rebound7 = {x.id for n in ast.walk(lp) for x in ast.walk(n) if isinstance(x, ast.Name) and isinstance(x.ctx, (ast.Store, ast.Del)) and source.enclosing_func(x) is fn}
+            via7 = [(h_.node, h_) for h_ in helper_stores([n for n in ast.walk(lp) if source.enclosing_func(n) is fn and source.enclosing(n, (ast.For, ast.While, ast.AsyncFor)) is lp],
+                                                          resolve7, exclude=(fn,))
+                    if isinstance(h_.target, ast.Subscript) and h_.caller_name(h_.target.value) is not None and h_.caller_name(h_.target.value) not in rebound7]
+            # locals the loop itself accumulates (x op= .., x = .. x ..): a helper that merely STORES such a local publishes a value accumulated elsewhere
+            accum7 = {n.target.id for n in ast.walk(lp) if isinstance(n, ast.AugAssign) and isinstance(n.target, ast.Name)} | \
+                {t.id for n in ast.walk(lp) if isinstance(n, ast.Assign) for t in n.targets if isinstance(t, ast.Name) and t.id in loads_of(n.value)}
+
+            def handed_accumulated(h_, accum7=accum7):
+                if h_ is None:
+                    return False
+                v7 = h_.value()
+                return v7 is None or bool(loads_of(v7) & accum7)
+
+            for st_, h_ in own7 + via7:
                 tg = st_.targets[0] if isinstance(st_, ast.Assign) else st_.target
-                role = names.get(tg.id) if isinstance(tg, ast.Name) else (tg.slice.value if isinstance(tg, ast.Subscript) and isinstance(tg.slice, ast.Constant) and tg.slice.value in ("timed_out", "took") else None)
+                role = (names.get(tg.id) if h_ is None else None) if isinstance(tg, ast.Name) else (
+                    tg.slice.value if isinstance(tg, ast.Subscript) and isinstance(tg.slice, ast.Constant) and tg.slice.value in ("timed_out", "took") else None)
                 if role is None:
                     continue
-                if lv and _p7.guarded(st_, f"{lv} == 0", stop=lp) is not None:
+                if h_ is None and lv and _p7.guarded(st_, f"{lv} == 0", stop=lp) is not None:
                     continue  # first page: plain initialisation
+                if h_ is not None and lv and any(_p7.guarded(s7, f"{n_} == 0", stop=lp if b7 is None else None) is not None for s7, b7 in h_.scopes() for n_ in HelperStore.names_for(b7, lv)):
+                    continue  # first page, decided at a call on the way or inside the helper on the parameter bound to the loop variable
                 n7 += 1
                 acc = u(tg)
+                # the conditions known to hold when the store runs, as (fact, spelling of the accumulator in the scope the fact is written in): the loop's own guards - for a store
+                # inside a helper the guards of every call on the way (over the caller's container) and those inside the helper (over the parameter bound to it)
+                if h_ is None:
+                    facts7 = [(f_, acc) for f_ in _p7.fact_nodes(st_, stop=lp)]
+                else:
+                    facts7 = [(f_, f"{n_}[{tg.slice.value!r}]") for s7, b7 in h_.scopes() for n_ in HelperStore.names_for(b7, h_.caller_name(tg.value))
+                              for f_ in _p7.fact_nodes(s7, stop=lp if b7 is None else None)]
                 if role == "timed_out":
                     v = st_.value
 
@@ -2047,12 +2364,18 @@ def run(chk):
 
                     sticky = (isinstance(st_, ast.Assign) and stays_on(v)) or (isinstance(st_, ast.Assign) and isinstance(v, ast.BoolOp) and isinstance(v.op, ast.Or) and any(u(x) == acc for x in v.values)) \
                         or (isinstance(st_, ast.AugAssign) and isinstance(st_.op, ast.BitOr)) \
-                        or any(_p7.match(f_, "not E_a") is not None and _p7.match(f_, "not E_a")["a"] == acc for f_ in _p7.fact_nodes(st_, stop=lp)) \
+                        or any(_p7.match(f_, "not E_a") is not None and _p7.match(f_, "not E_a")["a"] == a_ for f_, a_ in facts7) \
                         or (isinstance(v, ast.Call) and dotted(v.func) in ("max", "any") and acc in u(v))
+                    if not sticky and handed_accumulated(h_):
+                        chk.unknown("O19.7", f"{fn.name}: the helper {h_.helper.name} stores a value the loop accumulates itself (`{short(st_, 60)}`): not followed", st_)
+                        continue
                     chk.ob("O19.7", f"{fn.name}: timed_out of a later page can only turn the flag on", sticky, st_, short(st_, 80) + ("" if sticky else " — the last page's value replaces an earlier `true`"),
                            key=f"{_R}:Query.{fn.name}:sticky:timed_out")
                 else:
                     summed = (isinstance(st_, ast.AugAssign) and isinstance(st_.op, ast.Add)) or (isinstance(st_, ast.Assign) and isinstance(st_.value, ast.BinOp) and isinstance(st_.value.op, ast.Add) and acc in u(st_.value))
+                    if not summed and handed_accumulated(h_):
+                        chk.unknown("O19.7", f"{fn.name}: the helper {h_.helper.name} stores a value the loop accumulates itself (`{short(st_, 60)}`): not followed", st_)
+                        continue
                     chk.ob("O19.7", f"{fn.name}: took is summed over the pages", summed, st_, short(st_, 80), key=f"{_R}:Query.{fn.name}:sum:took")
     if n7 >= 5:
         chk.ob("O19.7", "page accumulators located (scroll, search_after, composite)", True, Q, f"{n7} in-loop store(s)")
@@ -2662,6 +2985,95 @@ _B8_SHAPES = [
       "        detail_counts = Counter(error_details)\n        return \", \".join(f\"{count}x{detail[0]}\" for detail, count in sorted(detail_counts.items()))\n", "O19.9"),
 ]
 
+# ---- refactored shapes (benign round 4) ----
+# b10: _get_last_sort scans in place - <compiled pattern>.search(text, pos) instead of slicing the tail off, the decoder gets the ABSOLUTE position of the match, guard clauses
+def _b10(decode="last_sort_match.start(1)", guard="        if index_of_last_sort < 0:\n            # no hit carries a sort value, e.g. because the page is empty\n            return None\n"):
+    return ("        index_of_last_sort = response_str.rfind('\"sort\"')\n" + guard +
+            "        last_sort_match = self.sort_pattern.search(response_str, index_of_last_sort)\n        if last_sort_match is None:\n            return None\n"
+            "        last_sort, _ = self.decoder.raw_decode(response_str, " + decode + ")\n        return last_sort\n")
+
+
+# b9: the per-page accounting of the two paginated flavours lives in static helpers of Query
+_PAGE_BLOCK = ("                    results[\"pages\"] = page\n                    results[\"weight\"] = page\n                    if results.get(\"hits\") is None:\n"
+               "                        results[\"hits\"] = parsed.get(\"hits.total.value\")\n                        results[\"hits_relation\"] = parsed.get(\"hits.total.relation\")\n"
+               "                    results[\"took\"] += parsed.get(\"took\")\n                    # when this evaluates to True, keep it for the final result\n"
+               "                    if not results[\"timed_out\"]:\n                        results[\"timed_out\"] = parsed.get(\"timed_out\")\n                    if pit_op:\n"
+               "                        # per the documentation the response pit id is most up-to-date\n                        CompositeContext.put(pit_op, parsed.get(\"pit_id\"))\n")
+_RESULTS_INIT = ("            results = {\n                \"unit\": \"pages\",\n                \"success\": True,\n                \"timed_out\": False,\n                \"took\": 0,\n            }\n"
+                 "            if pit_op:\n                # these are disallowed as they are encoded in the pit_id\n")
+_RECORD_PAGE = ("    @staticmethod\n    def _new_paginated_results():\n        return {\n            \"unit\": \"pages\",\n            \"success\": True,\n            \"timed_out\": False,\n"
+                "            \"took\": 0,\n        }\n\n"
+                "    @staticmethod\n    def _record_page(results, parsed, page, pit_op):\n        \"\"\"Folds the properties extracted from one page into the meta-data.\"\"\"\n"
+                "        results[\"pages\"] = page\n        results[\"weight\"] = page\n        # the total hit count is taken from the first page only\n        if results.get(\"hits\") is None:\n"
+                "            results[\"hits\"] = parsed.get(\"hits.total.value\")\n            results[\"hits_relation\"] = parsed.get(\"hits.total.relation\")\n"
+                "        results[\"took\"] += parsed.get(\"took\")\n        if not results[\"timed_out\"]:\n            results[\"timed_out\"] = parsed.get(\"timed_out\")\n"
+                "        if pit_op:\n            CompositeContext.put(pit_op, parsed.get(\"pit_id\"))\n\n")
+
+
+_HITS_IN_HELPER = ("        if results.get(\"hits\") is None:\n            results[\"hits\"] = parsed.get(\"hits.total.value\")\n            results[\"hits_relation\"] = parsed.get(\"hits.total.relation\")\n")
+_RECORD_TOTALS = ("    @staticmethod\n    def _record_totals(meta, props):\n        if meta.get(\"hits\") is not None:\n            return\n        meta[\"hits\"] = props.get(\"hits.total.value\")\n"
+                  "        meta[\"hits_relation\"] = props.get(\"hits.total.relation\")\n\n")
+
+
+def _b9(name, kind, rule=None, swap=None, more="", call="                    self._record_page(results, parsed, page, pit_op)\n", init=True):
+    helper = _RECORD_PAGE
+    if swap:
+        assert helper.count(swap[0]) == 1
+        helper = helper.replace(swap[0], swap[1])
+    return [V(name, kind, _R, _RAW_SEARCH_DEF, helper + more + _RAW_SEARCH_DEF, rule), V("", kind, _R, _PAGE_BLOCK, call, count=2)] + (
+        [V("", kind, _R, _RESULTS_INIT, "            results = self._new_paginated_results()\n            if pit_op:\n                # these are disallowed as they are encoded in the pit_id\n", count=2)] if init else [])
+
+
+_B9_B10_SHAPES = [
+    V("b10 shape: the compiled pattern scans in place from the key on, absolute decoder offset, guard clauses", "keep", _R, _LAST_SORT_OLD, _b10()),
+    V("b10 shape broken: the start of the scan is added to the (already absolute) position of the match", "break", _R, _LAST_SORT_OLD, _b10(decode="index_of_last_sort + last_sort_match.start(1)"), "O19.2"),
+    V("b10 shape broken: without the guard a key search that finds nothing (-1) makes the pattern scan the whole response", "break", _R, _LAST_SORT_OLD, _b10(guard=""), "O19.2"),
+    V("b10 shape broken: in-place scan of the decoded text from a position found in the raw bytes", "break", _R,
+      "        response_str = response.getvalue().decode(\"UTF-8\")\n" + _LAST_SORT_OLD,
+      "        raw = response.getvalue()\n        response_str = raw.decode(\"UTF-8\")\n" + _b10().replace("response_str.rfind('\"sort\"')", "raw.rfind(b'\"sort\"')"), "O19.2"),
+    V("the tail of the response bound to a local, searched and decoded (offsets relative to the tail)", "keep", _R, _LAST_SORT_OLD,
+      "        tail = response_str[response_str.rfind('\"sort\"'):]\n        found = self.sort_pattern.search(tail)\n        if found is None:\n            return None\n"
+      "        return self.decoder.raw_decode(tail, found.start(1))[0]\n"),
+    V("tail shape broken: a position inside the tail handed to the decoder together with the whole text", "break", _R, _LAST_SORT_OLD,
+      "        tail = response_str[response_str.rfind('\"sort\"'):]\n        found = self.sort_pattern.search(tail)\n        if found is None:\n            return None\n"
+      "        return self.decoder.raw_decode(response_str, found.start(1))[0]\n", "O19.2"),
+    _b9("b9 shape: per-page accounting and the initial result in static helpers of Query", "keep"),
+    _b9("b9 shape, helper called by keyword through the class, result dict built inline", "keep", init=False,
+        call="                    Query._record_page(page=page, results=results, parsed=parsed, pit_op=pit_op)\n"),
+    _b9("b9 shape broken: the helper overwrites the hit total with every page", "break", "O19.6",
+        swap=("        if results.get(\"hits\") is None:\n            results[\"hits\"]", "        if results.get(\"hits\") is None or page > 1:\n            results[\"hits\"]")),
+    V("hit total recorded on the first page, decided on the page number", "keep", _R, "                    if results.get(\"hits\") is None:\n", "                    if page == 1:\n", count=2),
+    V("hit total recorded on every page (condition on the page number that always holds)", "break", _R, "                    if results.get(\"hits\") is None:\n", "                    if page >= 1:\n", "O19.6",
+      count=2),
+    _b9("b9 shape, the helper decides on the page number whether to record the hit total", "keep",
+        swap=("        if results.get(\"hits\") is None:\n            results[\"hits\"]", "        if page == 1:\n            results[\"hits\"]")),
+    _b9("b9 shape in two levels: the hit total recorded by a second helper behind a guard clause", "keep", swap=(_HITS_IN_HELPER, "        Query._record_totals(results, parsed)\n"), more=_RECORD_TOTALS),
+    _b9("b9 shape in two levels broken: the second helper records the hit total unconditionally", "break", "O19.6", swap=(_HITS_IN_HELPER, "        Query._record_totals(results, parsed)\n"),
+        more=_RECORD_TOTALS.replace("        if meta.get(\"hits\") is not None:\n            return\n", "")),
+    [V("sticky flag set by a helper, the test on the accumulated flag stays at the call", "keep", _R, _RAW_SEARCH_DEF,
+       "    @staticmethod\n    def _note_timeout(meta, props):\n        meta[\"timed_out\"] = props.get(\"timed_out\")\n\n" + _RAW_SEARCH_DEF),
+     V("", "keep", _R, "                    if not results[\"timed_out\"]:\n                        results[\"timed_out\"] = parsed.get(\"timed_out\")\n",
+       "                    if not results[\"timed_out\"]:\n                        self._note_timeout(results, parsed)\n", count=2)],
+    [V("flag set by a helper on every page: the last page decides", "break", _R, _RAW_SEARCH_DEF,
+       "    @staticmethod\n    def _note_timeout(meta, props):\n        meta[\"timed_out\"] = props.get(\"timed_out\")\n\n" + _RAW_SEARCH_DEF, "O19.7"),
+     V("", "break", _R, "                    if not results[\"timed_out\"]:\n                        results[\"timed_out\"] = parsed.get(\"timed_out\")\n",
+       "                    self._note_timeout(results, parsed)\n", count=2)],
+    V("pages / weight recorded with dict.update through a local bound once per page", "keep", _R, "                    results[\"pages\"] = page\n                    results[\"weight\"] = page\n",
+      "                    pages_done = page\n                    results.update(pages=pages_done, weight=pages_done)\n", count=2),
+    V("pages / weight recorded with dict.update: weight is the page limit", "break", _R, "                    results[\"pages\"] = page\n                    results[\"weight\"] = page\n",
+      "                    results.update({\"pages\": page, \"weight\": total_pages})\n", "O19.6", count=2),
+    V("b10 shape with pos= by keyword and the position read off span()", "keep", _R, _LAST_SORT_OLD,
+      _b10(decode="last_sort_match.span(1)[0]").replace("search(response_str, index_of_last_sort)", "search(response_str, pos=index_of_last_sort)")),
+    V("b10 shape broken: the start position clamped to 0 instead of the guard - still a scan of the whole response", "break", _R, _LAST_SORT_OLD,
+      _b10(guard="").replace("search(response_str, index_of_last_sort)", "search(response_str, max(index_of_last_sort, 0))"), "O19.2"),
+    _b9("b9 shape broken: the helper counts pages from zero", "break", "O19.6", swap=("        results[\"pages\"] = page\n", "        results[\"pages\"] = page - 1\n")),
+    _b9("b9 shape broken: the caller hands the helper the number of the NEXT page", "break", "O19.6", call="                    self._record_page(results, parsed, page + 1, pit_op)\n"),
+    _b9("b9 shape broken: the helper lets the last page decide timed_out", "break", "O19.7",
+        swap=("        if not results[\"timed_out\"]:\n            results[\"timed_out\"] = parsed.get(\"timed_out\")\n", "        results[\"timed_out\"] = parsed.get(\"timed_out\")\n")),
+    _b9("b9 shape broken: the helper keeps the last page's took instead of the sum", "break", "O19.7",
+        swap=("        results[\"took\"] += parsed.get(\"took\")\n", "        results[\"took\"] = parsed.get(\"took\")\n")),
+]
+
 VARIANTS = [
     V("F17 guard dropped (harmless since F28: the finally removes the cursor on every exit) (search_after)", "keep", _R, "                if results.get(\"hits\") / size > page and page < total_pages:", "                if results.get(\"hits\") / size > page:", "O19.6"),
     V("F17 guard dropped (harmless since F28: the finally removes the cursor on every exit) (composite)", "keep", _R, "                if isinstance(after_key, dict) and page < total_pages:", "                if isinstance(after_key, dict):", "O19.6"),
@@ -2790,6 +3202,8 @@ VARIANTS = [
     *_B7_SHAPES,
     # b8: the error details are a small record type; counting with collections.Counter (O19.9 evaluates the construction and the Counter on values)
     *_B8_SHAPES,
+    # b9 / b10 (benign round 4): page accounting in helpers (O19.6 / O19.7 follow the stores into the helper the loop calls); in-place scan of _get_last_sort (O19.2 on values)
+    *_B9_B10_SHAPES,
     # preserving
     V("predicate extracted into a local", "keep", _R, "                if data[\"status\"] > 299 or (\"_shards\" in data and data[\"_shards\"][\"failed\"] > 0):\n                    bulk_error_count += 1\n                    self.extract_error_details(error_details, data)\n                else:\n                    bulk_success_count += 1\n        stats = {\n            \"took\": props.get(\"took\"),",
       "                failed = data[\"status\"] > 299 or (\"_shards\" in data and data[\"_shards\"][\"failed\"] > 0)\n                if failed:\n                    bulk_error_count += 1\n                    self.extract_error_details(error_details, data)\n                else:\n                    bulk_success_count += 1\n        stats = {\n            \"took\": props.get(\"took\"),"),
